@@ -32,6 +32,8 @@ def sentinel(kind, n, which):
         return ("' OR 1=1; -- %s %%_\\ \"" % m, m)
     if kind == "int":
         v = base * 1000000 + 7 * n + 13
+        if n % 4 == 3:
+            v = base * 2 ** 64 + 7 * n + 13      # beyond the signed 64-bit range
         return (str(v), str(v))
     if kind == "float":
         v = "%d.%s" % (base * 12345 + n, "25" if which == "A" else "75")
